@@ -67,6 +67,30 @@ def _spec_and_real(out, pid, tier, seed, cfgs, variants, name):
         rej2, _ = E.validate_real_traces(cfgs, [(g, bad, evs)], f"{name}_selftest")
         if not rej2:
             raise MachineryError("self-test failed: Trace_Sampler accepted a corrupted observation")
+    bars_cov = {}
+    if pid in ("C13", "C15") and records:
+        # beyond the listed properties: the progress-display protocol (SamplerBars.tla), model checked on the same
+        # configuration family and bound to the calls the real sample_chains made on the progress-bar objects
+        bres = E.run_bars_spec([c for c in cfgs if not c.get("nproc_none")], f"{name}_bars")
+        brej, bt = E.validate_real_traces(cfgs, records, f"{name}_bars_trace", bars=True)
+        for t, m in brej:
+            if t == -1:
+                out.drift("display protocol: " + str(m))
+            else:
+                g = records[t - 1][0]
+                out.drift(f"display protocol: real trace rejected by Trace_SamplerBars after {m} events: layout {cfgs[g]['layout']}, "
+                          f"{cfgs[g]['nchain']} chains, {E._mode(cfgs[g])}, interrupt {cfgs[g]['intr']}")
+        import copy
+        g, obs, evs = next(((g, o, e) for g, o, e in records if any(x["ev"] == "BarUpd" for x in e)), (None, None, None))
+        if evs is None:
+            raise MachineryError("no progress-bar event was recorded (vacuous display-protocol validation)")
+        bad = copy.deepcopy(evs)
+        next(x for x in bad if x["ev"] == "BarUpd")["i"] += 1
+        if not E.validate_real_traces(cfgs, [(g, obs, bad)], f"{name}_bars_selftest", bars=True)[0]:
+            raise MachineryError("self-test failed: Trace_SamplerBars accepted a corrupted progress-bar event")
+        bars_cov = {"display_protocol_states": bres.distinct, "display_protocol_traces_validated": len(records) - len([r for r in brej if r[0] != -1]),
+                    "display_protocol_bar_events": sum(1 for _, _, e in records for x in e if x["ev"].startswith("Bar"))}
+    out.coverage.update(bars_cov)
     out.coverage.update({
         "states": stats["distinct"] + (res.distinct if res else 0),
         "transitions": stats["generated"] + (res.generated if res else 0),
